@@ -672,6 +672,26 @@ func c13RunBinary(c *Ctx, k c13Case, ts []c13Tri, r *Rng, st *c13Stats) {
 			c.Distinct("load/len=" + lc + "/" + cls)
 			c.Count("triangles_loaded_binary_bit_exact", int64(len(ts)))
 		}
+		// the same file reached through symbolic links (absolute and relative target): what is loaded is the file, not the link
+		if k.Index%4 == 1 {
+			for li, target := range []string{pSave, filepath.Base(pSave)} {
+				link := fmt.Sprintf("%s-link%d.stl", base, li)
+				os.Remove(link)
+				if os.Symlink(target, link) != nil {
+					continue
+				}
+				got, err := c13Load(link)
+				os.Remove(link)
+				if err != nil {
+					k.report(c, key, "LoadSTL-binary", &c13Fail{"error", "through a symbolic link: " + err.Error(), -1}, ts)
+				} else if f := c13CheckLoaded(got, ts, true); f != nil {
+					f.Detail += " [loaded through a symbolic link]"
+					k.report(c, key, "LoadSTL-binary", f, ts)
+				} else {
+					c.Count("files_loaded_through_a_symlink", 1)
+				}
+			}
+		}
 	}
 	// streaming writer through render.ToSTL and the scripted renderer
 	bs := c13Batches(r, len(ts))
